@@ -59,7 +59,7 @@ func genC09(tier string) []*Scenario {
 		out = append(out, &Scenario{Name: name, Prop: "C09", Seq: sp, ExpectOutcomes: 2})
 	}
 	for _, tw := range twins {
-		add(CacheCfg{Twin: tw}, durNoExp)                                 // New(): defaults only
+		add(CacheCfg{Twin: tw}, durNoExp)                                                     // New(): defaults only
 		add(CacheCfg{Twin: tw, HasIvl: true, Ivl: -5, HasMinCap: true, MinCap: -3}, durNoExp) // negative interval / capacity are normalised
 		for _, d := range []time.Duration{durNoExp, durDef, -1, 0, 1, 2, time.Hour} {
 			add(CacheCfg{Twin: tw, HasDef: true, Def: d}, normDef(d))
